@@ -77,20 +77,25 @@ def am_calls(machine, chunks, call_end=False, indirect=True, cfg0=None):
         calls = []
     base = 0
     nyield = 3 + len(machine.finish_codes)
+    dead = bool(calls) and calls[-1].code != 0
     for ch in chunks:
+        if dead:
+            break
         pos = 0
         guard = 0
         while True:
             res = machine.feed(cfg, ch[pos:])
             pos += res.ptr
             calls.append(_am_call("feed", res, (base + pos) if indirect else None, machine, cfg))
+            if res.code == 2 or 3 <= res.code < nyield:
+                dead = True      # finished: the driver makes no further calls
             if not (indirect and res.code >= nyield):
                 break
             guard += 1
             if guard > 100000:
                 raise am_mod.Spin("yield spin", None)
         base += len(ch)
-    if call_end:
+    if call_end and not dead:
         res = machine.end(cfg)
         calls.append(_am_call("end", res, None, machine, cfg))
     return calls, cfg
